@@ -132,6 +132,9 @@ func plan(tier string, seed int64) []driver.Case {
 			cases = append(cases, driver.Case{ID: fmt.Sprintf("pipe/%d/%d/%s", arity, k, sc.String()), P: map[string]string{"kind": "pipe", "chain": strings.Join(names, ">"), "scripts": sc.String()}})
 		}
 	}
+	for _, pc := range paramCases() {
+		cases = append(cases, driver.Case{ID: "param/" + pc.name, P: map[string]string{"kind": "param", "name": pc.name}})
+	}
 	for i := 0; i < nLong; i++ {
 		e := modelled[rng.Intn(len(modelled))]
 		sc := randScript(rng, 20+rng.Intn(200))
@@ -303,6 +306,9 @@ func runCase(c driver.Case) driver.Result {
 	rec.ResetHooks()
 	if c.Get("kind") == "pipe" {
 		return runPipe(c)
+	}
+	if c.Get("kind") == "param" {
+		return runParam(c)
 	}
 	scripts := parseScripts(c.Get("scripts"))
 	var o run.Opts
